@@ -235,8 +235,17 @@ func vfVerifyCorpus() []*vfVCase {
 	never := &vfVCase{Kind: "corpus", Toks: []vfVTok{{Kind: "minted", Spec: &far}, {Kind: "minted", Spec: &far2}, {Kind: "minted", Spec: &far3}},
 		Steps: []vfVStep{{Op: "verify", Tok: 0}, {Op: "verify", Tok: 0}, {Op: "revoke", Tok: 0}, {Op: "verify", Tok: 0}, {Op: "verify", Tok: 0},
 			{Op: "revoke", Tok: 1}, {Op: "verify", Tok: 1}, {Op: "verify", Tok: 2}, {Op: "revoke", Tok: 2}, {Op: "verify", Tok: 2}, {Op: "session", Tok: 2}, {Op: "verify", Tok: 2}}}
+	// a revocation list that is exactly full (500 revocations), one of them repeated: every one of them still holds
+	full := &vfVCase{Kind: "corpus-full-list"}
+	for i := 0; i < 500; i++ {
+		sp := vfTokSpec{Sub: fmt.Sprintf("f%d", i), Email: "u@example.com", ExpIn: 3600, IatIn: -5, NoFlavour: true}
+		full.Toks = append(full.Toks, vfVTok{Kind: "minted", Spec: &sp})
+		full.Steps = append(full.Steps, vfVStep{Op: "revoke", Tok: i})
+	}
+	full.Steps = append(full.Steps, vfVStep{Op: "verify", Tok: 0}, vfVStep{Op: "revoke", Tok: 499}, vfVStep{Op: "verify", Tok: 0}, vfVStep{Op: "verify", Tok: 1},
+		vfVStep{Op: "revoke", Tok: 250}, vfVStep{Op: "verify", Tok: 2}, vfVStep{Op: "verify", Tok: 499})
 	return []*vfVCase{
-		crowd, held, peers, never,
+		crowd, held, peers, never, full,
 		{Kind: "corpus", Toks: []vfVTok{{Kind: "minted", Spec: &edge}, {Kind: "minted", Spec: &edgeJ}},
 			Steps: []vfVStep{{Op: "verify", Tok: 0}, {Op: "verify", Tok: 1}, {Op: "verify", Tok: 0}, {Op: "sleep", Ms: 4300},
 				{Op: "verify", Tok: 0}, {Op: "verify", Tok: 1}, {Op: "verify", Tok: 0}}},
